@@ -72,3 +72,15 @@ Section RolloutScan.
 End RolloutScan.
 
 Print Assumptions gen_rscan_eq_model.
+
+(* LoggingCallback.on_iteration (callback.py), with the backend call recorded as an effect by the translator (exactly one record per
+   backend, emitted with ordered=True, the observer's own state returned unchanged): the record carries the SUM of the per-environment step
+   counters and the MEANS over the environments of the two statistics = Logging.iter_record *)
+Theorem gen_oniterlog_eq_model (sts : list lstate) :
+  (gen_oniterlog_step sts, gen_oniterlog_episode_return sts, gen_oniterlog_episode_length sts) = iter_record sts.
+Proof.
+  unfold gen_oniterlog_step, gen_oniterlog_episode_return, gen_oniterlog_episode_length, iter_record, ksumZ, kmeanQ, qmean, qsum.
+  rewrite !map_length. reflexivity.
+Qed.
+
+Print Assumptions gen_oniterlog_eq_model.
